@@ -152,7 +152,7 @@ def run(v) -> None:
     v.add_tlc(tlc.must_pass(tlc.run("MC_RFIMask", "MC_RFIMask_q.cfg" if quick else "MC_RFIMask.cfg", workers=14, timeout=3000),
                             "MC_RFIMask"), "MC_RFIMask")
     hists = []
-    for _ in range(150 if quick else 1500):
+    for _ in range(150 if quick else 5000):
         C = rng.choice([8, 12, 16])
         dy = rng.random() < 0.6
         fch1, foff = (rng.choice([100.0, 1400.0]), rng.choice([-2.0, -0.5, 1.0])) if dy else (1500.0, rng.choice([-0.1, 0.3]))
